@@ -32,9 +32,9 @@ E_SIGHASH_MODE, E_EXTRADATA = 0x6A97, 0x6A98
 E_ROOT_MISMATCH = 0x6A96
 BC_PROT_INVALID, BC_RLP_INVALID, BC_BLOCK_TOO_SHORT = 0x6B87, 0x6B88, 0x6B8A
 BC_MM_RLP_LEN_MISMATCH = 0x6B93
-BC_CB_TXN_HASH_MISMATCH = 0x6B9E
-BC_BROTHERS_TOO_MANY = 0x6B9F
-BC_BROTHER_ORDER = 0x6BA2
+BC_CB_TXN_HASH_MISMATCH = 0x6B9D
+BC_BROTHERS_TOO_MANY = 0x6B9E
+BC_BROTHER_ORDER = 0x6BA1
 HBT_PROT_INVALID = 0x6B10
 ATT_PROT_INVALID = 0x6B00
 E_INS_NOT_SUPPORTED = 0x6D00
